@@ -164,11 +164,49 @@ theorem walkList_errs (f : List DNode → DNode → DNode × Out) (P : DNode →
       ih _ (fun b y hy => h b y (List.mem_cons_of_mem _ hy))]
     simp
 
+theorem walkList_allErrs (f : List DNode → DNode → DNode × Out) (Q : VErr → Prop) : ∀ (l before : List DNode),
+    (∀ b, ∀ x ∈ l, ∀ e ∈ (f b x).2.errs, Q e) → ∀ e ∈ (walkList f before l).2.errs, Q e := by
+  intro l
+  induction l with
+  | nil => intro _ _ e he; simp [walkList] at he
+  | cons x xs ih =>
+    intro before h e he
+    unfold walkList at he
+    dsimp only at he
+    rw [Out.append_errs, List.mem_append] at he
+    rcases he with he | he
+    · exact h before x (List.mem_cons_self ..) e he
+    · exact ih _ (fun b y hy => h b y (List.mem_cons_of_mem _ hy)) e he
+
+theorem dupErr_kind (X : SchemaX) (o : VOpts) (cx : Cx) (done tl : List DNode) (n : DNode) :
+    ∀ e ∈ (dupErr X o cx done tl n).errs, e.kind = .dup := by
+  intro e he
+  unfold dupErr at he
+  dsimp only at he
+  split at he
+  · simp only [Out.err, Out.errs, List.filterMap_cons, List.filterMap_nil, List.mem_singleton] at he
+    rw [he]
+  · simp at he
+
+theorem loopErrs_kind (X : SchemaX) (o : VOpts) (cx : Cx) : ∀ (rest done : List DNode),
+    ∀ e ∈ (loopErrs X o cx done rest).errs, e.kind = .dup := by
+  intro rest
+  induction rest with
+  | nil => intro done e he; simp [loopErrs] at he
+  | cons n tl ih =>
+    intro done e he
+    unfold loopErrs at he
+    rw [Out.append_errs, List.mem_append] at he
+    rcases he with he | he
+    · exact dupErr_kind X o cx done tl n e he
+    · exact ih _ e he
+
 /-! ## `lyd_validate_subtree` on a fresh tree over a plain schema: `LYD_NEW` is cleared, the errors are the duplicate errors -/
 
 theorem validateNew_fresh (X : SchemaX) (o : VOpts) (cx : Cx) (hop : o.operational = false) (ks : List DNode)
     (hk : noChoiceTop (X.kidsOf cx.parent) = true) (hf : isFreshL ks = true) :
-    (validateNew X o cx ks).1 = ks.map normNew ∧ ((validateNew X o cx ks).2.errs = [] ↔ NoPair X.base ks) := by
+    (validateNew X o cx ks).1 = ks.map normNew ∧ ((validateNew X o cx ks).2.errs = [] ↔ NoPair X.base ks) ∧
+      ∀ e ∈ (validateNew X o cx ks).2.errs, e.kind = .dup := by
   have hall := (isFreshL_all ks).1 hf
   have hnew : ∀ n ∈ ks, n.flags.new = true := fun n hn => by rw [isFreshN_flags (hall n hn)]
   have hnd : ∀ n ∈ ks, n.flags.dflt = false := fun n hn => by rw [isFreshN_flags (hall n hn)]
@@ -176,16 +214,19 @@ theorem validateNew_fresh (X : SchemaX) (o : VOpts) (cx : Cx) (hop : o.operation
   rw [choiceRL_noChoice X cx _ ks hk]
   dsimp only
   rw [newLoop_noDflt X o cx.keysOld (ks.length + 1) ks [] none (by omega) (by simpa using hnd)]
-  refine ⟨by simp, ?_⟩
-  simp only [Out.empty_append]
-  have := loopErrs_nil_iff X o cx.keysOld hop ks [] hnew
-  simpa using this
+  refine ⟨by simp, ?_, ?_⟩
+  · simp only [Out.empty_append]
+    have := loopErrs_nil_iff X o cx.keysOld hop ks [] hnew
+    simpa using this
+  · simp only [Out.empty_append]
+    exact loopErrs_kind X o cx.keysOld ks []
 
 theorem subtree_fresh (X : SchemaX) (o : VOpts) (hop : o.operational = false) (hl : KidsLookupOk X) (hpl : PlainX X) : ∀ (fuel : Nat)
     (cx : Cx) (before : List DNode) (n : DNode) (sk : List STree), (∀ k ∈ sk, BelowL k X.top) →
       sk.any (·.sid == n.sid) = true → placedN X n = true → sheightL sk ≤ fuel → isFreshL n.kids = true →
       (subtreeNode X o fuel cx before n).1 = n.setKids (clrL n.kids) ∧
-      ((subtreeNode X o fuel cx before n).2.errs = [] ↔ dupDeepN X.base n) := by
+      ((subtreeNode X o fuel cx before n).2.errs = [] ↔ dupDeepN X.base n) ∧
+      ∀ e ∈ (subtreeNode X o fuel cx before n).2.errs, e.kind = .dup := by
   intro fuel
   induction fuel with
   | zero =>
@@ -197,7 +238,7 @@ theorem subtree_fresh (X : SchemaX) (o : VOpts) (hop : o.operational = false) (h
   | succ fuel ih =>
     intro cx before n sk hsk hany hp hh hfr
     cases n with
-    | term s f m v => exact ⟨by simp [subtreeNode, DNode.setKids], by simp [subtreeNode, dupDeepN]⟩
+    | term s f m v => exact ⟨by simp [subtreeNode, DNode.setKids], by simp [subtreeNode, dupDeepN], by simp [subtreeNode]⟩
     | inner s f m ks =>
       obtain ⟨k, hk, hks⟩ := List.any_eq_true.1 hany
       have hks' : k.sid = s := by simpa [DNode.sid] using hks
@@ -216,9 +257,9 @@ theorem subtree_fresh (X : SchemaX) (o : VOpts) (hop : o.operational = false) (h
       unfold subtreeNode
       dsimp only
       rw [hkids]
-      obtain ⟨hv1, hv2⟩ := validateNew_fresh X o (cx.descend X.base before (DNode.inner s f m ks)) hop ks
+      obtain ⟨hv1, hv2, hv3⟩ := validateNew_fresh X o (cx.descend X.base before (DNode.inner s f m ks)) hop ks
         (by show noChoiceTop (X.kidsOf (some s)) = true; rw [hkids]; exact hnck) hfr
-      generalize (validateNew X o (cx.descend X.base before (DNode.inner s f m ks)) ks) = r1 at hv1 hv2 ⊢
+      generalize (validateNew X o (cx.descend X.base before (DNode.inner s f m ks)) ks) = r1 at hv1 hv2 hv3 ⊢
       rw [implL_noChoice X o _ _ _ hnck, implNodes_of_done X.base o _ _ _ (implDone_plain o k.kids r1.1 hplk)]
       dsimp only
       rw [hv1]
@@ -227,21 +268,28 @@ theorem subtree_fresh (X : SchemaX) (o : VOpts) (hop : o.operational = false) (h
       have hpall := (placedL_all X k.kids ks).1 hp
       have helem : ∀ b, ∀ x ∈ ks.map normNew,
           (subtreeNode X o fuel (cx.descend X.base before (DNode.inner s f m ks)).keysOld b x).1 = x.setKids (clrL x.kids) ∧
-          ((subtreeNode X o fuel (cx.descend X.base before (DNode.inner s f m ks)).keysOld b x).2.errs = [] ↔ dupDeepN X.base x) := by
+          ((subtreeNode X o fuel (cx.descend X.base before (DNode.inner s f m ks)).keysOld b x).2.errs = [] ↔ dupDeepN X.base x) ∧
+          ∀ e ∈ (subtreeNode X o fuel (cx.descend X.base before (DNode.inner s f m ks)).keysOld b x).2.errs, e.kind = .dup := by
         intro b x hx
         obtain ⟨y, hy, hxy⟩ := List.mem_map.1 hx
         subst hxy
         exact ih _ b (normNew y) k.kids hsk' (by simpa using (hpall y hy).1) (by rw [placedN_normNew]; exact (hpall y hy).2) hh'
           (by rw [normNew_kids]; exact isFreshN_kids (hall y hy))
-      constructor
+      refine ⟨?_, ?_, ?_⟩
       · simp only [DNode.setKids]
         congr 1
         rw [walkList_map _ (fun x => x.setKids (clrL x.kids)) _ [] (fun b x hx => (helem b x hx).1), clrL_eq_map, List.map_map]
         apply List.map_congr_left
         intro y hy
         exact normNew_setKids_fresh (hall y hy)
+      rotate_left
+      · intro e he
+        simp only [Out.append_errs, Out.empty_errs, List.append_nil, List.mem_append] at he
+        rcases he with he | he
+        · exact hv3 e he
+        · exact walkList_allErrs _ (fun e => e.kind = .dup) _ [] (fun b x hx => (helem b x hx).2.2) e he
       · simp only [Out.append_errs, Out.empty_errs, List.append_nil, List.append_eq_nil_iff, hv2]
-        rw [walkList_errs _ (dupDeepN X.base) _ [] (fun b x hx => (helem b x hx).2)]
+        rw [walkList_errs _ (dupDeepN X.base) _ [] (fun b x hx => (helem b x hx).2.1)]
         rw [dupDeepN_inner, dupDeepL_all]
         constructor
         · rintro ⟨h1, h2⟩
@@ -525,7 +573,7 @@ theorem validate_errs_iff (X : SchemaX) (o : VOpts) (hop : o.operational = false
   have hpl : PlainX X := fun k hk => (hps k hk).1
   have htop : ∀ k ∈ X.top, plainNode k = true := fun k hk => hpl k (BelowL.of_mem hk)
   have hnct : noChoiceTop X.top = true := noChoiceTop_plain _ htop
-  obtain ⟨hv1, hv2⟩ := validateNew_fresh X o {} hop t hnct hfr
+  obtain ⟨hv1, hv2, _⟩ := validateNew_fresh X o {} hop t hnct hfr
   generalize (validateNew X o {} t) = r1 at hv1 hv2 ⊢
   rw [implL_noChoice X o _ _ _ hnct, implNodes_of_done X.base o _ _ _ (implDone_plain o X.top r1.1 htop)]
   dsimp only
@@ -534,7 +582,8 @@ theorem validate_errs_iff (X : SchemaX) (o : VOpts) (hop : o.operational = false
   have hpall := (placedL_all X X.top t).1 hp
   have helem : ∀ b, ∀ x ∈ t.map normNew,
       (subtreeNode X o (walkFuel X t) {} b x).1 = x.setKids (clrL x.kids) ∧
-      ((subtreeNode X o (walkFuel X t) {} b x).2.errs = [] ↔ dupDeepN X.base x) := by
+      ((subtreeNode X o (walkFuel X t) {} b x).2.errs = [] ↔ dupDeepN X.base x) ∧
+      ∀ e ∈ (subtreeNode X o (walkFuel X t) {} b x).2.errs, e.kind = .dup := by
     intro b x hx
     obtain ⟨y, hy, hxy⟩ := List.mem_map.1 hx
     subst hxy
@@ -548,7 +597,7 @@ theorem validate_errs_iff (X : SchemaX) (o : VOpts) (hop : o.operational = false
     exact normNew_setKids_fresh (hall y hy)
   have hwerr : (subtreeKids X o (walkFuel X t) {} [] (t.map normNew)).2.errs = [] ↔ dupDeepL X.base t := by
     unfold subtreeKids
-    rw [walkList_errs _ (dupDeepN X.base) _ [] (fun b x hx => (helem b x hx).2), dupDeepL_all]
+    rw [walkList_errs _ (dupDeepN X.base) _ [] (fun b x hx => (helem b x hx).2.1), dupDeepL_all]
     constructor
     · intro h y hy; exact (dupDeepN_normNew X.base y).1 (h (normNew y) (List.mem_map_of_mem hy))
     · intro h x hx
